@@ -237,7 +237,7 @@ class RejectsMixin:
     def nest(self, step, t, rep, bad, good_int):
         """place the offending expression `bad` at the nesting position"""
         n = step["nest"]
-        if n == "top":
+        if n == "top" or good_int is None:
             return bad
         if n == "arith":
             return bad + 1 if step["rule"] not in ("pred_nonbool",) else bad
